@@ -26,9 +26,16 @@ import (
 type c04Picker struct {
 	c        *choice.Ctx
 	restrict map[string][]int
+	// free: menus that are enumerated as a full product in this pass (no deviation cost)
+	free map[string][]int
 }
 
-func (p c04Picker) Pick(n int, label string) int { return p.c.Pick(n, label) }
+func (p c04Picker) Pick(n int, label string) int {
+	if r, ok := p.free[label]; ok {
+		return r[p.c.PickFree(len(r), label)]
+	}
+	return p.c.Pick(n, label)
+}
 func (p c04Picker) Free(n int, label string) int {
 	if r, ok := p.restrict[label]; ok {
 		return r[p.c.PickFree(len(r), label)]
@@ -339,8 +346,23 @@ type c04Replay struct {
 }
 
 func c04ExploreFrames(e *fw.Env, r *fw.Result, bound int, restrict map[string][]int, pass string) {
+	c04ExploreFramesFree(e, r, bound, restrict, nil, pass)
+}
+
+// c04FilterStress: the loop filters only do something interesting on strong edges, and a strong
+// edge needs a high level AND large coefficients AND the right filter type at once - more
+// deviations than the bounded passes allow.  This pass therefore enumerates the full product of
+// filter level x type x sharpness x coefficient program x magnitude x quantiser x luma mode class
+// on two multi-macroblock pictures (every clamp, threshold and high-edge-variance branch of both
+// filters with saturating operands), everything else at its default.
+var c04FilterStress = map[string][]int{
+	"filter-level": {2, 3, 4}, "filter-simple": {0, 1}, "sharpness": {0, 1, 2},
+	"coeffs": {8, 7, 3}, "magnitude": {6, 8, 9}, "qbase": {0, 3, 4}, "ymode": {0, 5, 4},
+}
+
+func c04ExploreFramesFree(e *fw.Env, r *fw.Result, bound int, restrict, free map[string][]int, pass string) {
 	st := choice.Explore(choice.Config{Bound: bound, Shard: e.Shard, NShard: e.NShard, ShardTop: true, Stop: e.Expired}, func(c *choice.Ctx) {
-		f, desc := vp8gen.Generate(c04Picker{c, restrict}, e.Seed)
+		f, desc := vp8gen.Generate(c04Picker{c, restrict, free}, e.Seed)
 		stream := f.Encode()
 		r.Eval(1)
 		r.DistinctHash(fw.Hash64(stream))
@@ -367,14 +389,16 @@ func c04ExploreFrames(e *fw.Env, r *fw.Result, bound int, restrict map[string][]
 func init() {
 	fw.Register(&fw.Check{
 		ID: "C04", Level: "exploration", Shards: shards16,
-		Rule:   "syntax-directed VP8 key-frame generator (own boolean entropy encoder; RFC 6386 header, mode and token trees) driven by the explorer: 8 dimensions (1-3 macroblocks per side, cropped) x at most 2 deviations (3 on the 3x2-macroblock picture; thorough: 3 everywhere, 4 on that picture) from menus for quantiser index and each of the five deltas, segments (map / delta / absolute / data without map), loop filter level, type, sharpness and mode/ref deltas, 1-8 token partitions, 16x16, 4x4 (each of the ten sub-modes, cycling) and chroma modes, eleven coefficient programs x eleven magnitudes up to 2114 x sign, skip-flag usage, coefficient probability updates, colour-space / clamp / version bits; plus ALPH payloads: sizes x 8 alpha patterns x {raw, VP8L from the lossless generator} x 4 filters x pre-processing and reserved bits x trailing bytes; oracle: vendored x/image vp8 decoder + reference ALPH decoder + reference fancy upsampler, libwebp arbitrating; distinct = distinct stream bytes / ALPH case",
+		Rule:   "syntax-directed VP8 key-frame generator (own boolean entropy encoder; RFC 6386 header, mode and token trees) driven by the explorer: 8 dimensions (1-3 macroblocks per side, cropped) x at most 2 deviations (3 on the 3x2-macroblock picture; thorough: 3 everywhere, 4 on that picture) from menus for quantiser index and each of the five deltas, segments (map / delta / absolute / data without map), loop filter level, type, sharpness and mode/ref deltas, 1-8 token partitions, 16x16, 4x4 (each of the ten sub-modes, cycling) and chroma modes, eleven coefficient programs x eleven magnitudes up to 2114 x sign, skip-flag usage, coefficient probability updates, colour-space / clamp / version bits; plus a filter-stress pass (full product of filter level {8,32,63} x simple/normal x sharpness {0,3,7} x 3 coefficient programs x magnitudes {11,35,67} x quantiser {20,63,120} x 3 luma mode classes on 32x32 and 33x17; thorough: with one further deviation); plus ALPH payloads: sizes x 8 alpha patterns x {raw, VP8L from the lossless generator} x 4 filters x pre-processing and reserved bits x trailing bytes; oracle: vendored x/image vp8 decoder + reference ALPH decoder + reference fancy upsampler, libwebp arbitrating; distinct = distinct stream bytes / ALPH case",
 		Assume: []string{"a frame the references reject or disagree on is dropped and counted, never a violation", "coefficient levels are limited so that level x quantiser stays inside 16 bits (wrap-around is not defined by the format)"},
 		Run: func(e *fw.Env, r *fw.Result) {
 			pin()
 			c04ExploreFrames(e, r, 2, nil, "frames-2dev")
 			if e.Quick() {
 				c04ExploreFrames(e, r, 3, map[string][]int{"dims": {4}}, "frames-3dev")
+				c04ExploreFramesFree(e, r, 0, map[string][]int{"dims": {5, 4}}, c04FilterStress, "filter-stress")
 			} else {
+				c04ExploreFramesFree(e, r, 1, map[string][]int{"dims": {5, 4}}, c04FilterStress, "filter-stress-1dev")
 				c04ExploreFrames(e, r, 3, nil, "frames-3dev")
 				c04ExploreFrames(e, r, 4, map[string][]int{"dims": {4}}, "frames-4dev")
 			}
